@@ -334,6 +334,9 @@ TEMPLATES = {
     'se2plainc': lambda s: make('SE2', s, file_expressible=True, custom=True, fixed=(1, 3)),
     'se3reg': lambda s: make('SE3', s, file_expressible=True, fixed=(1,)),
     'se3regc': lambda s: make('SE3', s, file_expressible=True, custom=True, n_poses=4, fixed=(2,)),
+    # file-expressible graphs whose ids are NOT list positions (negative, sparse, huge, descending)
+    'se2plainids': lambda s: make('SE2', s, file_expressible=True, fixed=(2,), ids=lambda j: [-7, 1000000007, 42, -123456, 900, 5, 77, -1, 31337, 64, 2 ** 40, 13][j % 12] + 100000 * (j // 12)),
+    'se3idsreg': lambda s: make('SE3', s, file_expressible=True, fixed=(1,), ids=lambda j: 500 - 9 * j),
     'se2weighted': weighted('SE2'),
     'se2huge': lambda s: make('SE2', s, n_poses=150, n_landmarks=10, closures=40),
     'se2big': lambda s: make('SE2', s, n_poses=24, n_landmarks=4, closures=8),
